@@ -7,6 +7,7 @@ export GOFLAGS=-mod=mod GOPROXY=off GOSUMDB=off GOTOOLCHAIN=local
 GROUP=$1; OUT=$2
 TARGET=""
 EXTRA_TARGETS=""
+ACC=""
 [ -x "$VERIF/bin/vinstr" ] || (cd "$VERIF/tools/vinstr" && go build -o "$VERIF/bin/vinstr" .)
 mkdir -p "$OUT/ov"
 case "$GROUP" in
@@ -14,6 +15,8 @@ case "$GROUP" in
     PKGS="./nsqd ./nsqlookupd ./internal/clusterinfo ./internal/util ./internal/quantile ./internal/dirlock ./internal/auth github.com/nsqio/go-diskqueue"
     MOUNT="$VERIF/harness/nsqd=nsqd,$VERIF/harness/nsqlookupd=nsqlookupd,$VERIF/harness/http_api=internal/http_api,$VERIF/harness/cmd/nsqdx=internal/verif/cmd/nsqdx"
     KEEP=""
+    # plain field accesses of these packages' structs are part of a transition's footprint
+    ACC="github.com/nsqio/nsq/nsqd"
     ;;
   lookupx)
     PKGS="./nsqlookupd ./internal/util"
@@ -38,9 +41,14 @@ case "$GROUP" in
     TARGET=./apps/to_nsq
     EXTRA_TARGETS="nsq_to_nsq nsq_to_http"
     ;;
+  selftest)
+    PKGS="./internal/stringy"
+    MOUNT="$VERIF/harness/cmd/selftest=internal/verif/cmd/selftest"
+    KEEP=""
+    ;;
   *) echo "unknown group $GROUP"; exit 2;;
 esac
-"$VERIF/bin/vinstr" -repo "$REPO" -out "$OUT/ov" -rt "$VERIF/rt" -mount "$MOUNT" -keep "$KEEP" $PKGS >/dev/null
+"$VERIF/bin/vinstr" -repo "$REPO" -out "$OUT/ov" -rt "$VERIF/rt" -mount "$MOUNT" -keep "$KEEP" -acc "${ACC:-}" $PKGS >/dev/null
 cd "$REPO" && go build -overlay "$OUT/ov/overlay.json" -tags verif -o "$OUT/h" ${TARGET:-./internal/verif/cmd/$GROUP}
 for t in $EXTRA_TARGETS; do
   go build -overlay "$OUT/ov/overlay.json" -tags verif -o "$OUT/h_$t" ./apps/$t
